@@ -63,7 +63,16 @@ fn run_history<S: Sys>(make: &Maker<S>, hist: &[S::Act]) -> Result<ExecOut<S::Ac
 pub fn exec_thread<S: Sys + 'static>(make: &Maker<S>, seed: u64, hist: &[S::Act]) -> Result<ExecOut<S::Act>, ExecErr> {
     let make = make.clone();
     let hist: Vec<S::Act> = hist.to_vec();
-    match isolated(seed, move || run_history(&make, &hist)) {
+    // The execution state is *defined* as: RandomState keys = f(seed), ThreadRng reseeded from the
+    // start of the entropy stream, clock at origin (fresh::reset). A real fresh thread applies the
+    // same initialisation, so that both ways of running an execution agree also where the
+    // subject really samples (a pristine thread would seed its ThreadRng lazily, from a later
+    // position of the entropy stream). If the in-place reset is unavailable this is a no-op and
+    // every execution of the run uses pristine fresh threads.
+    match isolated(seed, move || {
+        let _ = crate::fresh::reset(seed);
+        run_history(&make, &hist)
+    }) {
         Ok(x) => x,
         Err(p) => Err(ExecErr::Panic(format!("{p} at {}", mc::shim::last_panic_loc().unwrap_or_default()))),
     }
@@ -178,7 +187,8 @@ impl<S: Sys + 'static> Search<S> {
                     self.stats.transitions += 1;
                 }
                 // determinism self-test: the first K executions are run twice
-                if count && self.stats.selftested < self.selftest_k {
+                // ... and afterwards every 4001st one (deep histories, where the subject really samples)
+                if count && (self.stats.selftested < self.selftest_k || (self.selftest_k > 0 && self.stats.executions % 4001 == 0)) {
                     self.stats.selftested += 1;
                     // the re-run uses a real fresh OS thread: checks determinism *and* that the
                     // in-place reset (fresh.rs) is equivalent to a fresh thread
